@@ -5,13 +5,14 @@ pub mod c05;
 pub mod c06;
 pub mod c07;
 pub mod c08;
+pub mod c10;
 pub mod c11;
 pub mod scase;
 
 use crate::engine::Property;
 
 pub fn all() -> Vec<Property> {
-    vec![c01::property(), c02::property(), c04::property(), c05::property(), c06::property(), c07::property(), c08::property(), c11::property()]
+    vec![c01::property(), c02::property(), c04::property(), c05::property(), c06::property(), c07::property(), c08::property(), c10::property(), c11::property()]
 }
 
 /// Non-tape engines (libFuzzer campaigns, subprocess sweeps) attached to a property.
